@@ -355,6 +355,8 @@ theorem C15_body_CorDef_Start : Gen.c15BodyToksOf "CorDef.Start" = some ["{", "i
 theorem C15_body_DefaultWorkerPool_Close : Gen.c15BodyToksOf "worker.DefaultWorkerPool.Close" = some ["{", "if", "self.IsClosed()", "{", "return", "}", "self.isClosed.Set(true)", "if", "self.isJobQueueClosedWhenClose", "{", "self.jobQueue.Close()", "}", "}"] := by decide +kernel
 theorem C15_body_DefaultWorkerPool_Schedule : Gen.c15BodyToksOf "worker.DefaultWorkerPool.Schedule" = some ["{", "if", "self.IsClosed()", "{", "return", "ErrWorkerPoolIsClosed", "}", "defer", "self.spawnWorkerCh.Offer(1)", "err", ":=", "self.jobQueue.Offer(fn)", "if", "err", "==", "fpgo.ErrQueueIsFull", "{", "return", "ErrWorkerPoolJobQueueIsFull", "}", "return", "err", "}"] := by decide +kernel
 theorem C15_body_DefaultWorkerPool_IsClosed : Gen.c15BodyToksOf "worker.DefaultWorkerPool.IsClosed" = some ["{", "return", "self.isClosed.Get()", "}"] := by decide +kernel
+theorem C15_body_DefaultInvokable_Invoke : Gen.c15BodyToksOf "worker.DefaultInvokable.Invoke" = some ["{", "callee", ":=", "self.callee", "self.workerPool.Schedule(func()", "{", "callee(val)", "})", "}"] := by decide +kernel
+theorem C15_body_DefaultInvokable_InvokeWithTimeout : Gen.c15BodyToksOf "worker.DefaultInvokable.InvokeWithTimeout" = some ["{", "callee", ":=", "self.callee", "return", "self.workerPool.ScheduleWithTimeout(func()", "{", "callee(val)", "},", "timeout)", "}"] := by decide +kernel
 theorem C15_body_AtomBool_Set : Gen.c15BodyToksOf "AtomBool.Set" = some ["{", "var", "i", "int32", "i", "=", "0", "if", "value", "{", "i", "=", "1", "}", "atomic.StoreInt32(&(self.flag),", "int32(i))", "}"] := by decide +kernel
 theorem C15_body_AtomBool_Get : Gen.c15BodyToksOf "AtomBool.Get" = some ["{", "if", "atomic.LoadInt32(&(self.flag))", "!=", "0", "{", "return", "true", "}", "return", "false", "}"] := by decide +kernel
 theorem C15_skel_BufferedChannelQueue_Offer : Gen.c15SkelToksOf "BufferedChannelQueue.Offer" = some ["call(lock.Lock)", "defer{call(lock.Unlock)}", "if[get(isClosed)", "call(isClosed.Get)]{return}", "get(pool)", "call(pool.Count)", "if[]{call(blockingQueue.Offer)", "if[]{return}else{if[]{}else{return}}}", "if[]{return}", "get(pool)", "call(pool.Offer)", "call(loadWorkerCh.Offer)", "return"] := by decide +kernel
